@@ -10,7 +10,7 @@ from vf.props import common as K
 from vf.ref7z import reader as R
 
 LEVEL = "exploration"
-CASE_TIMEOUT = 300
+CASE_TIMEOUT = 1800
 CPU_BUDGET = 120
 REQUIRED_OBS = ["archives_validated", "ref_members_compared"]
 RULE = ("py7zr write histories (1..3 sessions: create + appends; members via writestr/writef/write/writeall; directory, empty-file and "
@@ -53,7 +53,47 @@ def cases(rng, tier):
             case["deref"] = False
             case["target"] = "path"
         out.append(case)
+    if tier == "thorough":
+        out.append({"kind": "testsuite"})
     return out
+
+
+def _run_testsuite(viol, obs):
+    """The repository's own tests as a workload: every archive a test closes in a write mode is parsed
+    by the strict reference reader (vf/mon/pytest_plugin.py)."""
+    import json
+    import subprocess
+    import sys
+    import tempfile
+
+    root = os.environ.get("VERIF_REPO", "/repo")
+    here = os.path.dirname(os.path.dirname(os.path.dirname(os.path.abspath(__file__))))
+    with tempfile.TemporaryDirectory(prefix="vf-c07-suite-") as d:
+        rep = os.path.join(d, "report.jsonl")
+        env = dict(os.environ, VF_PLUGIN_REPORT=rep, PYTHONPATH=here + os.pathsep + root)
+        p = subprocess.run([sys.executable, "-m", "pytest", "-q", "-p", "no:cacheprovider", "-p", "vf.mon.pytest_plugin", "--timeout=900", "-x", "--basetemp", os.path.join(d, "bt"),
+                            os.path.join(root, "tests")], cwd=root, env=env, capture_output=True, text=True, timeout=1500)
+        obs["testsuite_exit"] = p.returncode
+        n = 0
+        if os.path.exists(rep):
+            for line in open(rep):
+                r = json.loads(line)
+                if r.get("skipped"):
+                    obs["testsuite_archives_skipped"] = obs.get("testsuite_archives_skipped", 0) + 1
+                    continue
+                n += 1
+                for f in r.get("findings") or []:
+                    code, _, text = f.partition("| ")
+                    viol.append({"key": "testsuite/structure/" + code, "what": "%s: %s" % (r["test"][:80], text[:200])})
+                if r.get("error"):
+                    viol.append({"key": "testsuite/ref-rejects/" + r["error"].split(":")[0], "what": "%s: reference reader rejects the archive the test wrote: %s" % (r["test"][:80], r["error"])})
+        obs["archives_validated"] = obs.get("archives_validated", 0) + n
+        obs["ref_members_compared"] = obs.get("ref_members_compared", 0) + n
+        obs["testsuite_archives_validated"] = n
+        try:
+            os.unlink(os.path.join(root, "tests", "data", "test_multiple.7z"))
+        except OSError:
+            pass
 
 
 def worker_init():
@@ -120,6 +160,14 @@ def validate(data, password, model, viol, obs, tag):
 def run_case(case):
     contracts.reset()
     viol, obs = [], {}
+    if case.get("kind") == "testsuite":
+        _run_testsuite(viol, obs)
+        if viol:
+            seen = {}
+            for v in viol:
+                seen.setdefault(v["key"], v)
+            return K.result("violated", violations=list(seen.values()), cell="testsuite", obs=obs)
+        return K.result("held", cell="testsuite", obs=obs, sample={"kind": "repository test suite under the reference-reader plugin", "archives": obs.get("testsuite_archives_validated")})
     model = []
     allb = b""
     import py7zr
